@@ -1,6 +1,7 @@
 #!/bin/bash
 # tools/try_seed.sh <patch.diff> <PROP> [<PROP>...]  : apply a seeded change to /repo, run the checks, undo it.
 # TSG_REPO=<worktree> runs the same on a scratch worktree instead of /repo (used while /repo is busy)
+export TSG_SCRATCH_EVIDENCE=1   # the tree is changed on purpose: evidence of these runs goes to .work/evidence-dev
 P=$1; shift
 R=${TSG_REPO:-/repo}
 cd $R || exit 2
